@@ -18,7 +18,11 @@ MANIFEST = dict(
     text='Proof-level: every obligation (tables, linearity, per-byte transition as a GF(2) matrix, state range, initial value, output '
          'conversion, loop shape) is closed by an exhaustive or algebraic argument, so crc16/crc32c equal CRC-16/XMODEM and CRC-32C on all '
          'byte strings. Any construct outside the affine sub-language is an analysis error, never a guess.'
-         " The names crc16/crc32c as callers see them (decorators applied) must return the analysed function's result in every call history (symbolic inputs, both functions interleaved).",
+         " The names crc16/crc32c as callers see them (decorators applied) must return the analysed function's result in every call history (symbolic inputs, both functions interleaved)."
+         ' The length-skeleton language covers counted and while loops, iterator cursors, zip units, enumerate, windows of any block size (symbolic residue), single-byte folds, '
+         'multi-statement helpers, stripped inputs (fixed-point argument), bitwise (table-free) steps and binascii.crc_hqx (library contract). A routine outside that language '
+         '(register kept in an object, engines, generators) is not proved for all lengths: rule O6 then decides it exactly for every input of 47 lengths up to 129 bytes, '
+         'and the evidence says so.',
     note='trusted: CPython ast, the checker\'s GF(2) bit-vector evaluator, the transcription of the two bitwise CRC definitions',
     design_ref='DESIGN.md section 4 C18')
 ONE = '1'
